@@ -10,9 +10,16 @@ import time
 VERIF = os.path.dirname(os.path.dirname(os.path.abspath(__file__)))
 REPO = os.environ.get("VERIF_REPO", "/repo")
 SRC = os.path.join(REPO, "src", "pyopenapi_gen")
-WORK = os.path.join(VERIF, ".work")
-EVID = os.path.join(VERIF, "evidence")
-REPLAYS = os.path.join(VERIF, "replays")
+if REPO != "/repo":
+    # side run against a scratch copy of the repository (seeded-change trials): nothing registered is touched
+    _tag = hashlib.sha256(REPO.encode()).hexdigest()[:10]
+    WORK = os.path.join(VERIF, ".work", "alt-" + _tag)
+    EVID = os.path.join(WORK, "evidence")
+    REPLAYS = os.path.join(WORK, "replays")
+else:
+    WORK = os.path.join(VERIF, ".work")
+    EVID = os.path.join(VERIF, "evidence")
+    REPLAYS = os.path.join(VERIF, "replays")
 KNOWN_FILE = os.path.join(VERIF, "known_findings.json")
 
 EXIT_OK, EXIT_VIOLATION, EXIT_HARNESS = 0, 1, 3
